@@ -98,7 +98,7 @@ func (d *Director) Peer(a *Actor, asked int, kind string, legacyClient bool) ([]
 	var err error
 	if legacyClient {
 		var r *pool.ClientResponse
-		r, err = a.Conn.RP.Client(ctx, pool.ClientRequest{Kind: kind, NumHosts: asked})
+		r, err = a.rp().Client(ctx, pool.ClientRequest{Kind: kind, NumHosts: asked})
 		if r != nil {
 			hosts = r.Hosts
 		}
@@ -113,7 +113,7 @@ func (d *Director) Peer(a *Actor, asked int, kind string, legacyClient bool) ([]
 		}
 	} else {
 		var r *pool.PeerResponse
-		r, err = a.Conn.RP.Peer(ctx, pool.PeerRequest{Num: asked, Kind: kind})
+		r, err = a.rp().Peer(ctx, pool.PeerRequest{Num: asked, Kind: kind})
 		if r != nil {
 			hosts = r.Peers
 		}
